@@ -398,24 +398,7 @@ pub enum ParseError {
 }
 // ---- unit T.QualifierKey  <= purl/src/qualifiers.rs:319 ----
 pub struct QualifierKey(pub SmallString);
-// ---- unit T.Qualifiers  <= purl/src/qualifiers.rs:21 ----
-pub struct Qualifiers {
-    pub qualifiers: Vec<(QualifierKey, SmallString)>,
-}
-// ---- unit T.PurlParts  <= purl/src/lib.rs:212 ----
-pub struct PurlParts {
-    pub namespace: SmallString,
-    pub name: SmallString,
-    pub version: SmallString,
-    pub qualifiers: Qualifiers,
-    pub subpath: SmallString,
-}
-// ---- unit T.MixedQualifierKey  <= purl/src/qualifiers.rs:553 ----
-pub enum MixedQualifierKey<S> {
-    Lower(S),
-    Mixed(S),
-}
-// ---- unit theory.qual  <= (contracts):0 ----
+// ---- unit theory.qualkeys  <= (contracts):0 ----
 // ---- qualifier keys (C04, C05, C11: ASCII letters, digits, '.', '-', '_'; non-empty) ----
 pub open spec fn key_char(c: char) -> bool { ascii_alnum_c(c) || c == '.' || c == '-' || c == '_' }
 pub open spec fn valid_key(s: Seq<char>) -> bool { s.len() > 0 && forall|i: int| 0 <= i < s.len() ==> key_char(#[trigger] s[i]) }
@@ -540,117 +523,8 @@ pub proof fn lemma_lt_asym(a: Seq<char>, b: Seq<char>)
 {
     lemma_lex_flip(a, b);
 }
-// ---- R9: stub of std's AsRef, with a specification of the text it exposes ----
-pub uninterp spec fn view_of<T: ?Sized>(t: &T) -> Seq<char>;
-#[verifier::external_body]
-pub broadcast proof fn axiom_view_of_str(s: &str)
-    ensures #[trigger] view_of::<str>(s) == s@
-{ }
 
-pub trait AsRef<T: ?Sized> {
-    spec fn text(&self) -> Seq<char>;
-    fn as_ref(&self) -> (r: &T)
-        ensures view_of(r) == self.text();
-}
-impl AsRef<str> for str {
-    open spec fn text(&self) -> Seq<char> { self@ }
-    fn as_ref(&self) -> (r: &str) { broadcast use axiom_view_of_str; self }
-}
-impl<T: ?Sized + AsRef<str>> AsRef<str> for &T {
-    open spec fn text(&self) -> Seq<char> { (**self).text() }
-    fn as_ref(&self) -> (r: &str) { (**self).as_ref() }
-}
-impl AsRef<str> for String {
-    open spec fn text(&self) -> Seq<char> { self@ }
-    fn as_ref(&self) -> (r: &str) { broadcast use axiom_view_of_str; self.as_str() }
-}
-
-/// ASSUMED coherence of std conversions: for every K that is both `AsRef<str>` and convertible into SmallString,
-/// `SmallString::from(k)` has the text `k.as_ref()` (true for &str, String, SmallString, Cow<str>, Box<str>, ...).
-#[verifier::external_body]
-pub proof fn axiom_from_keeps_text<K: AsRef<str>>()
-    where String: From<K>
-    ensures
-        <String as vstd::std_specs::convert::FromSpec<K>>::obeys_from_spec(),
-        forall|k: K| (#[trigger] <String as vstd::std_specs::convert::FromSpec<K>>::from_spec(k))@ == k.text(),
-{ }
-
-pub assume_specification [std::cmp::Ordering::is_eq] (o: Ordering) -> (r: bool) ensures r == (o is Equal);
-
-/// `a.chars().cmp(b.chars().flat_map(|c| c.to_lowercase()))`: Iterator::cmp is lexicographic by scalar value
-#[verifier::external_body]
-pub fn x_cmp_chars_lower(a: &str, b: &str) -> (r: Ordering)
-    ensures r == lex_cmp(a@, lower_seq(b@))
-{ a.chars().cmp(b.chars().flat_map(|c| c.to_lowercase())) }
-
-pub open spec fn ord_rank(o: Ordering) -> int { match o { Ordering::Less => 0, Ordering::Equal => 1, Ordering::Greater => 2 } }
-
-pub open spec fn key_cmp(kv: (QualifierKey, SmallString), t: Seq<char>) -> Ordering { lex_cmp(kv.0.0@, t) }
-
-/// a strictly ascending key list is partitioned Less* Equal? Greater* by comparison with any target
-pub proof fn lemma_sorted_partition(v: Seq<(QualifierKey, SmallString)>, t: Seq<char>)
-    requires keys_sorted(v)
-    ensures forall|i: int, j: int| 0 <= i < j < v.len() ==> ord_rank(key_cmp(#[trigger] v[i], t)) <= ord_rank(key_cmp(#[trigger] v[j], t))
-{
-    assert forall|i: int, j: int| 0 <= i < j < v.len() implies ord_rank(key_cmp(#[trigger] v[i], t)) <= ord_rank(key_cmp(#[trigger] v[j], t)) by {
-        let a = v[i].0.0@;
-        let b = v[j].0.0@;
-        assert(str_lt(a, b));
-        if lex_cmp(a, t) is Greater {
-            lemma_lex_flip(a, t);
-            lemma_lex_trans(t, a, b);
-            lemma_lex_flip(t, b);
-        } else if lex_cmp(a, t) is Equal {
-            lemma_lex_eq(a, t);
-            lemma_lex_flip(t, b);
-        }
-    }
-}
-
-
-
-impl<S: AsRef<str>> MixedQualifierKey<S> {
-    pub open spec fn text(&self) -> Seq<char> {
-        match self { MixedQualifierKey::Lower(s) => s.text(), MixedQualifierKey::Mixed(s) => s.text() }
-    }
-    /// valid key; the `Lower` tag promises there is nothing to lower-case
-    pub open spec fn wf(&self) -> bool {
-        valid_key(self.text()) && (self is Lower ==> all_ascii_lower(self.text()))
-    }
-    pub open spec fn canon(&self) -> Seq<char> { lower_ascii_seq(self.text()) }
-}
-pub proof fn lemma_canon_of_valid(s: Seq<char>)
-    requires valid_key(s)
-    ensures canon_key(lower_ascii_seq(s)), lower_seq(s) == lower_ascii_seq(s)
-{
-    let l = lower_ascii_seq(s);
-    assert forall|i: int| 0 <= i < l.len() implies key_char(#[trigger] l[i]) && !ascii_upper_c(l[i]) by {
-        assert(key_char(s[i]));
-    }
-    assert forall|i: int| 0 <= i < s.len() implies (u_to_lower(#[trigger] s[i]) != seq![s[i]] ==> is_ascii_c(s[i])) by {
-        assert(key_char(s[i]));
-    }
-    lemma_lower_seq_ascii(s);
-}
-
-// ---- unit T.PackageType  <= purl/src/package_type.rs:143 ----
-#[derive(Clone, Copy)]
-pub enum PackageType {
-    Cargo,
-    Gem,
-    Golang,
-    Maven,
-    Npm,
-    NuGet,
-    PyPI,
-}
-// ---- unit T.PackageError  <= purl/src/package_type.rs:212 ----
-pub enum PackageError {
-    MissingRequiredField(PurlField),
-    Parse( ParseError),
-    UnsupportedType,
-}
-// ---- unit theory.types  <= (contracts):0 ----
+// ---- unit theory.cow  <= (contracts):0 ----
 // ---- R9: stub of std::borrow::Cow for B = str (two variants, same names) ----
 pub enum Cow<'a, B: ?Sized> { Borrowed(&'a B), Owned(String) }
 
@@ -686,272 +560,490 @@ impl<'a> From<Cow<'a, str>> for String {
     { match c { Cow::Borrowed(b) => b.to_string(), Cow::Owned(o) => o } }
 }
 
-// ---- vocabulary for package types (written from C02/C04/C05: letters, digits, '.', '+', '-'; non-empty) ----
-pub open spec fn type_char(c: char) -> bool { ascii_alnum_c(c) || c == '.' || c == '+' || c == '-' }
-pub open spec fn valid_type(s: Seq<char>) -> bool { s.len() > 0 && forall|i: int| 0 <= i < s.len() ==> type_char(#[trigger] s[i]) }
 
-/// What every built-in string-like shape must do in `finish` (C04, C13): validate, then ASCII-lower-case; parts untouched.
-pub open spec fn shape_rel(t0: Seq<char>, p0: PurlParts, t1: Seq<char>, p1: PurlParts, r: Result<(), ParseError>) -> bool {
-    p1 == p0
-    && (valid_type(t0) ==> r is Ok && t1 == lower_ascii_seq(t0))
-    && (!valid_type(t0) ==> r == Err::<(), ParseError>(ParseError::InvalidPackageType))
+// ---- unit theory.cksum  <= (contracts):0 ----
+// ---- checksum qualifier: typed value <-> text (C04, C12), written from the statements ----
+// R9: stub of std::collections::HashMap as used by Checksum (String keys, Cow<str> values); every operation on it is an
+// assumed wrapper (std HashMap semantics). Its iteration order is modelled as ARBITRARY.
+#[verifier::external_body]
+#[verifier::accept_recursive_types(K)]
+#[verifier::accept_recursive_types(V)]
+pub struct HashMap<K, V> { _k: core::marker::PhantomData<K>, _v: core::marker::PhantomData<V> }
+
+pub uninterp spec fn hm_view<'a>(m: HashMap<SmallString, Cow<'a, str>>) -> Map<Seq<char>, Seq<char>>;
+
+/// entries as text pairs (algorithm, hex)
+pub type VS = Seq<(Seq<char>, Seq<char>)>;
+/// the text pairs of a vector of owned entries
+pub open spec fn ev<'a>(es: Seq<(SmallString, Cow<'a, str>)>) -> VS { es.map_values(|e: (SmallString, Cow<'a, str>)| (e.0@, e.1@)) }
+
+/// `es` lists every entry of `m` exactly once (in any order)
+#[verifier::opaque]
+pub open spec fn is_listing(es: VS, m: Map<Seq<char>, Seq<char>>) -> bool {
+    (forall|i: int| 0 <= i < es.len() ==> m.contains_key(#[trigger] es[i].0) && m[es[i].0] == es[i].1)
+    && (forall|i: int, j: int| 0 <= i < j < es.len() ==> #[trigger] es[i].0 != #[trigger] es[j].0)
+    && (forall|k: Seq<char>| m.contains_key(k) ==> exists|i: int| 0 <= i < es.len() && #[trigger] es[i].0 == k)
+}
+#[verifier::opaque]
+pub open spec fn sorted_by_key(es: VS) -> bool {
+    forall|i: int, j: int| 0 <= i < j < es.len() ==> str_lt(#[trigger] es[i].0, #[trigger] es[j].0)
 }
 
+pub open spec fn hex_ok(v: Seq<char>) -> bool { (forall|i: int| 0 <= i < v.len() ==> ascii_hex_c(#[trigger] v[i])) && v.len() % 2 == 0 }
+pub open spec fn entry_text(k: Seq<char>, v: Seq<char>) -> Seq<char> { k + seq![':'] + lower_ascii_seq(v) }
+/// "comma-separated list of algorithm:hex entries", in the order of `es`
+pub open spec fn listing_text(es: VS) -> Seq<char> decreases es.len() {
+    if es.len() == 0 { Seq::<char>::empty() }
+    else if es.len() == 1 { entry_text(es[0].0, es[0].1) }
+    else { listing_text(es.drop_last()) + seq![','] + entry_text(es.last().0, es.last().1) }
+}
+pub open spec fn all_hex_ok(es: VS) -> bool { forall|i: int| 0 <= i < es.len() ==> hex_ok(#[trigger] es[i].1) }
 
-// ---- unit theory.pkgtype  <= (contracts):0 ----
-// ---- vocabulary for the package-type rules, written from C08's wording ----
-pub open spec fn dash(c: char) -> bool { c == '-' || c == '_' || c == '.' }
+/// ASSUMED (UTF-8): an all-ASCII string has as many bytes as chars
+#[verifier::external_body]
+pub proof fn axiom_utf8_len_ascii(s: Seq<char>)
+    requires forall|i: int| 0 <= i < s.len() ==> is_ascii_c(#[trigger] s[i])
+    ensures utf8_len(s) == s.len()
+{ }
 
-/// "lower-cased with every maximal run of '-', '_' and '.' replaced by a single '-'"
-pub open spec fn pypi_norm(s: Seq<char>) -> Seq<char> decreases s.len() {
-    if s.len() == 0 { seq![] }
-    else if dash(s.last()) {
-        if s.len() >= 2 && dash(s[s.len() - 2]) { pypi_norm(s.drop_last()) } else { pypi_norm(s.drop_last()).push('-') }
-    } else { pypi_norm(s.drop_last()) + u_to_lower(s.last()) }
+#[verifier::external_body]
+pub fn x_str_len(s: &str) -> (r: usize)
+    ensures r == utf8_len(s@)
+{ s.len() }
+
+/// `value.chars().filter(|c| *c == ch).count()`; a str never has more than isize::MAX bytes
+#[verifier::external_body]
+pub fn x_count_char(s: &str, ch: char) -> (r: usize)
+    ensures r < usize::MAX
+{ s.chars().filter(|c| *c == ch).count() }
+
+#[verifier::external_body]
+pub fn x_hm_with_capacity<'a>(n: usize) -> (r: HashMap<SmallString, Cow<'a, str>>)
+    ensures hm_view(r) == Map::<Seq<char>, Seq<char>>::empty()
+{ unimplemented!() }
+
+/// `m.insert(k, v)`
+#[verifier::external_body]
+pub fn x_hm_insert<'a>(m: &mut HashMap<SmallString, Cow<'a, str>>, k: SmallString, v: Cow<'a, str>) -> (r: Option<Cow<'a, str>>)
+    ensures hm_view(*final(m)) == hm_view(*old(m)).insert(k@, v@), r is Some == hm_view(*old(m)).contains_key(k@)
+{ unimplemented!() }
+
+/// `m.into_iter().collect::<Vec<_>>()`: every entry once, in an ARBITRARY order (hash seed, insertion history)
+#[verifier::external_body]
+pub fn x_hm_into_vec<'a>(m: HashMap<SmallString, Cow<'a, str>>) -> (r: Vec<(SmallString, Cow<'a, str>)>)
+    ensures is_listing(ev(r@), hm_view(m))
+{ unimplemented!() }
+
+/// what `sort_unstable_by(|a, b| a.0.cmp(&b.0))` does: a permutation, ordered (non-strictly) by the keys
+/// (String::cmp = byte-wise = scalar-value order). Four separately opaque facts (revealing both inclusion directions at once
+/// sends the solver into a matching loop).
+#[verifier::opaque]
+pub open spec fn perm_into(before: VS, after: VS) -> bool {
+    forall|i: int| 0 <= i < before.len() ==> exists|j: int| 0 <= j < after.len() && after[j] == #[trigger] before[i]
+}
+#[verifier::opaque]
+pub open spec fn perm_from(before: VS, after: VS) -> bool {
+    forall|j: int| 0 <= j < after.len() ==> exists|i: int| 0 <= i < before.len() && before[i] == #[trigger] after[j]
+}
+#[verifier::opaque]
+pub open spec fn ordered_by_key(after: VS) -> bool {
+    forall|i: int, j: int| 0 <= i < j < after.len() ==> !str_lt(#[trigger] after[j].0, #[trigger] after[i].0)
+}
+pub open spec fn distinct_keys(es: VS) -> bool {
+    forall|i: int, j: int| 0 <= i < j < es.len() ==> #[trigger] es[i].0 != #[trigger] es[j].0
+}
+pub open spec fn is_sorted_perm(before: VS, after: VS) -> bool {
+    after.len() == before.len() && perm_into(before, after) && perm_from(before, after) && ordered_by_key(after)
+    // a permutation keeps pairwise-distinct keys pairwise distinct
+    && (distinct_keys(before) ==> distinct_keys(after))
 }
 
-pub proof fn lemma_pypi_no_dash(s: Seq<char>)
-    requires forall|i: int| 0 <= i < s.len() ==> !dash(#[trigger] s[i])
-    ensures pypi_norm(s) == lower_seq(s)
+/// `v.sort_unstable_by(|a, b| a.0.cmp(&b.0))`
+#[verifier::external_body]
+pub fn x_sort_by_key0<'a>(v: &mut Vec<(SmallString, Cow<'a, str>)>)
+    ensures is_sorted_perm(ev(old(v)@), ev(final(v)@)), final(v)@.len() == old(v)@.len()
+{ unimplemented!() }
+
+/// `v.iter().map(|(k, v)| k.len() + 1 + v.len()).sum::<usize>()`; ASSUMED not to overflow (the strings are all in memory)
+#[verifier::external_body]
+pub fn x_sum_entry_lens<'a>(v: &Vec<(SmallString, Cow<'a, str>)>) -> (r: usize)
+    ensures r + v@.len() <= usize::MAX
+{ unimplemented!() }
+
+/// `s.extend(t.chars().map(|c| c.to_ascii_lowercase()))`
+#[verifier::external_body]
+pub fn x_extend_ascii_lower(s: &mut String, t: &str)
+    ensures final(s)@ == old(s)@ + lower_ascii_seq(t@)
+{ s.extend(t.chars().map(|c| c.to_ascii_lowercase())) }
+
+/// a permutation of a duplicate-free listing, ordered non-strictly, is ordered strictly and is still a listing
+pub proof fn lemma_perm_members(before: VS, after: VS, m: Map<Seq<char>, Seq<char>>)
+    requires is_listing(before, m), is_sorted_perm(before, after)
+    ensures forall|i: int| 0 <= i < after.len() ==> m.contains_key(#[trigger] after[i].0) && m[after[i].0] == after[i].1
+{
+    reveal(is_listing); reveal(perm_from);
+    assert forall|i: int| 0 <= i < after.len() implies m.contains_key(#[trigger] after[i].0) && m[after[i].0] == after[i].1 by {
+        let k = choose|k: int| 0 <= k < before.len() && before[k] == after[i];
+        assert(m.contains_key(before[k].0));
+    }
+}
+pub proof fn lemma_perm_covers(before: VS, after: VS, m: Map<Seq<char>, Seq<char>>)
+    requires is_listing(before, m), is_sorted_perm(before, after)
+    ensures forall|k: Seq<char>| m.contains_key(k) ==> exists|i: int| 0 <= i < after.len() && #[trigger] after[i].0 == k
+{
+    reveal(is_listing); reveal(perm_into);
+    assert forall|k: Seq<char>| m.contains_key(k) implies exists|i: int| 0 <= i < after.len() && #[trigger] after[i].0 == k by {
+        let b = choose|b: int| 0 <= b < before.len() && #[trigger] before[b].0 == k;
+        let j = choose|j: int| 0 <= j < after.len() && after[j] == before[b];
+        assert(after[j].0 == k);
+    }
+}
+pub proof fn lemma_perm_strict(before: VS, after: VS, m: Map<Seq<char>, Seq<char>>)
+    requires is_listing(before, m), is_sorted_perm(before, after)
+    ensures
+        forall|i: int, j: int| 0 <= i < j < after.len() ==> #[trigger] after[i].0 != #[trigger] after[j].0,
+        sorted_by_key(after),
+{
+    reveal(is_listing); reveal(ordered_by_key); reveal(sorted_by_key);
+    assert forall|i: int, j: int| 0 <= i < j < after.len() implies str_lt(#[trigger] after[i].0, #[trigger] after[j].0) by {
+        let (a, b) = (after[i].0, after[j].0);
+        lemma_lex_eq(a, b);
+        lemma_lex_flip(a, b);
+    }
+}
+pub proof fn lemma_sorted_listing(before: VS, after: VS, m: Map<Seq<char>, Seq<char>>)
+    requires is_listing(before, m), is_sorted_perm(before, after)
+    ensures is_listing(after, m), sorted_by_key(after)
+{
+    lemma_perm_members(before, after, m);
+    lemma_perm_covers(before, after, m);
+    lemma_perm_strict(before, after, m);
+    reveal(is_listing);
+}
+
+/// C12: the text does not depend on the order in which the map hands out its entries -- two strictly sorted listings of
+/// the same map are the same sequence of (key text, value text)
+pub proof fn lemma_sorted_listing_unique(a: VS, b: VS, m: Map<Seq<char>, Seq<char>>)
+    requires is_listing(a, m), sorted_by_key(a), is_listing(b, m), sorted_by_key(b)
+    ensures a.len() == b.len(), forall|i: int| 0 <= i < a.len() ==> (#[trigger] a[i]).0 == b[i].0 && a[i].1 == b[i].1
+    decreases a.len()
+{
+    reveal(is_listing); reveal(sorted_by_key);
+    if a.len() == 0 {
+        if b.len() > 0 { assert(m.contains_key(b[0].0)); let i = choose|i: int| 0 <= i < a.len() && #[trigger] a[i].0 == b[0].0; }
+    } else if b.len() == 0 {
+        assert(m.contains_key(a[0].0)); let i = choose|i: int| 0 <= i < b.len() && #[trigger] b[i].0 == a[0].0;
+    } else {
+        // the largest key is last in both
+        let ka = a.last().0;
+        let kb = b.last().0;
+        assert(m.contains_key(a[a.len() - 1].0));
+        assert(m.contains_key(b[b.len() - 1].0));
+        let ib = choose|i: int| 0 <= i < b.len() && #[trigger] b[i].0 == ka;
+        let ia = choose|i: int| 0 <= i < a.len() && #[trigger] a[i].0 == kb;
+        if ia < a.len() - 1 { assert(str_lt(a[ia].0, a[a.len() - 1].0)); }
+        if ib < b.len() - 1 { assert(str_lt(b[ib].0, b[b.len() - 1].0)); }
+        if ka != kb {
+            // kb < ka (position in a) and ka < kb (position in b): contradiction
+            lemma_lt_asym(kb, ka);
+        }
+        let m2 = m.remove(ka);
+        let a2 = a.drop_last();
+        let b2 = b.drop_last();
+        assert(is_listing(a2, m2)) by {
+            assert forall|i: int| 0 <= i < a2.len() implies m2.contains_key(#[trigger] a2[i].0) && m2[a2[i].0] == a2[i].1 by {
+                assert(a2[i] == a[i]); assert(a[i].0 != a[a.len() - 1].0);
+            }
+            assert forall|k: Seq<char>| m2.contains_key(k) implies exists|i: int| 0 <= i < a2.len() && #[trigger] a2[i].0 == k by {
+                let i = choose|i: int| 0 <= i < a.len() && #[trigger] a[i].0 == k;
+                assert(a2[i] == a[i]);
+            }
+            assert forall|i: int, j: int| 0 <= i < j < a2.len() implies #[trigger] a2[i].0 != #[trigger] a2[j].0 by { assert(a2[i] == a[i]); assert(a2[j] == a[j]); }
+        }
+        assert(is_listing(b2, m2)) by {
+            assert forall|i: int| 0 <= i < b2.len() implies m2.contains_key(#[trigger] b2[i].0) && m2[b2[i].0] == b2[i].1 by {
+                assert(b2[i] == b[i]); assert(b[i].0 != b[b.len() - 1].0);
+            }
+            assert forall|k: Seq<char>| m2.contains_key(k) implies exists|i: int| 0 <= i < b2.len() && #[trigger] b2[i].0 == k by {
+                let i = choose|i: int| 0 <= i < b.len() && #[trigger] b[i].0 == k;
+                assert(b2[i] == b[i]);
+            }
+            assert forall|i: int, j: int| 0 <= i < j < b2.len() implies #[trigger] b2[i].0 != #[trigger] b2[j].0 by { assert(b2[i] == b[i]); assert(b2[j] == b[j]); }
+        }
+        assert(sorted_by_key(a2)) by { assert forall|i: int, j: int| 0 <= i < j < a2.len() implies str_lt(#[trigger] a2[i].0, #[trigger] a2[j].0) by { assert(a2[i] == a[i]); assert(a2[j] == a[j]); } }
+        assert(sorted_by_key(b2)) by { assert forall|i: int, j: int| 0 <= i < j < b2.len() implies str_lt(#[trigger] b2[i].0, #[trigger] b2[j].0) by { assert(b2[i] == b[i]); assert(b2[j] == b[j]); } }
+        lemma_sorted_listing_unique(a2, b2, m2);
+        assert forall|i: int| 0 <= i < a.len() implies (#[trigger] a[i]).0 == b[i].0 && a[i].1 == b[i].1 by {
+            if i < a.len() - 1 { assert(a2[i] == a[i]); assert(b2[i] == b[i]); }
+        }
+    }
+}
+
+pub proof fn lemma_bad_entry(es: VS, m: Map<Seq<char>, Seq<char>>, i: int)
+    requires is_listing(es, m), 0 <= i < es.len(), !hex_ok(es[i].1)
+    ensures exists|k: Seq<char>| m.contains_key(k) && !hex_ok(#[trigger] m[k])
+{
+    reveal(is_listing);
+    assert(m.contains_key(es[i].0) && m[es[i].0] == es[i].1);
+}
+pub proof fn lemma_all_ok(es: VS, m: Map<Seq<char>, Seq<char>>)
+    requires is_listing(es, m), forall|i: int| 0 <= i < es.len() ==> hex_ok(#[trigger] es[i].1)
+    ensures forall|k: Seq<char>| m.contains_key(k) ==> hex_ok(#[trigger] m[k])
+{
+    reveal(is_listing);
+    assert forall|k: Seq<char>| m.contains_key(k) implies hex_ok(#[trigger] m[k]) by {
+        let i = choose|i: int| 0 <= i < es.len() && #[trigger] es[i].0 == k;
+        assert(m[es[i].0] == es[i].1);
+    }
+}
+pub proof fn lemma_listing_text_step(es: VS, i: int)
+    requires 0 <= i < es.len()
+    ensures listing_text(es.take(i + 1)) ==
+        (if i == 0 { entry_text(es[i].0, es[i].1) } else { listing_text(es.take(i)) + seq![','] + entry_text(es[i].0, es[i].1) })
+{
+    assert(es.take(i + 1).drop_last() == es.take(i));
+    assert(es.take(i + 1).last() == es[i]);
+    if i == 0 { assert(es.take(1)[0] == es[0]); }
+}
+pub proof fn lemma_hex_is_ascii(v: Seq<char>)
+    requires forall|i: int| 0 <= i < v.len() ==> ascii_hex_c(#[trigger] v[i])
+    ensures utf8_len(v) == v.len()
+{
+    assert forall|i: int| 0 <= i < v.len() implies is_ascii_c(#[trigger] v[i]) by { assert(ascii_hex_c(v[i])); }
+    axiom_utf8_len_ascii(v);
+}
+pub proof fn lemma_listing_text_nonempty_iff(es: VS)
+    ensures (listing_text(es).len() == 0) ==> es.len() == 0
+    decreases es.len()
+{
+    if es.len() == 1 { } else if es.len() > 1 { }
+}
+
+/// C04 / C12: THE text form of a set of entries: defined for maps whose every value is an even number of hex digits,
+/// as the text of the strictly sorted listing (unique by lemma_sorted_listing_unique)
+pub open spec fn all_values_hex(m: Map<Seq<char>, Seq<char>>) -> bool { forall|k: Seq<char>| m.contains_key(k) ==> hex_ok(#[trigger] m[k]) }
+pub open spec fn canon_listing(m: Map<Seq<char>, Seq<char>>) -> VS { choose|vs: VS| is_listing(vs, m) && sorted_by_key(vs) }
+pub open spec fn canon_text(m: Map<Seq<char>, Seq<char>>) -> Seq<char> { listing_text(canon_listing(m)) }
+
+pub proof fn lemma_canon_listing(vs: VS, m: Map<Seq<char>, Seq<char>>)
+    requires is_listing(vs, m), sorted_by_key(vs)
+    ensures canon_listing(m) == vs
+{
+    let c = canon_listing(m);
+    lemma_sorted_listing_unique(vs, c, m);
+    assert(vs =~= c) by {
+        assert forall|i: int| 0 <= i < vs.len() implies vs[i] == c[i] by { assert(vs[i].0 == c[i].0 && vs[i].1 == c[i].1); }
+    }
+}
+
+// ---- text -> typed (C12): "split ',', rsplit_once ':', lower-case the algorithm, refuse duplicates" ----
+pub open spec fn ck_fold(pieces: Seq<Seq<char>>) -> Option<Map<Seq<char>, Seq<char>>> decreases pieces.len() {
+    if pieces.len() == 0 { Some(Map::<Seq<char>, Seq<char>>::empty()) } else {
+        match ck_fold(pieces.drop_last()) {
+            None => None,
+            Some(m) => {
+                let p = pieces.last();
+                let i = last_index_of(p, ':');
+                if i < 0 { None }                                             // entry without ':'
+                else if m.contains_key(lower_seq(p.subrange(0, i))) { None }   // algorithm repeated in any case
+                else { Some(m.insert(lower_seq(p.subrange(0, i)), p.subrange(i + 1, p.len() as int))) }
+            },
+        }
+    }
+}
+pub open spec fn ck_parse(text: Seq<char>) -> Option<Map<Seq<char>, Seq<char>>> { ck_fold(split_spec(text, ',')) }
+
+pub proof fn lemma_ck_fold_none(ps: Seq<Seq<char>>, k: int)
+    requires 0 <= k <= ps.len(), ck_fold(ps.take(k)) is None
+    ensures ck_fold(ps) is None
+    decreases ps.len() - k
+{
+    if k < ps.len() {
+        assert(ps.take(k + 1).drop_last() == ps.take(k));
+        lemma_ck_fold_none(ps, k + 1);
+    } else { assert(ps.take(k) == ps); }
+}
+
+/// the typed -> text conversion as a partial function of the entries (C04, C12)
+pub open spec fn ck_text(m: Map<Seq<char>, Seq<char>>) -> Option<Seq<char>> { if all_values_hex(m) { Some(canon_text(m)) } else { None } }
+pub open spec fn checksum_key() -> Seq<char> { seq!['c', 'h', 'e', 'c', 'k', 's', 'u', 'm'] }
+
+/// a checksum parsed from any text has at least one entry, and the text form of a non-empty entry set is non-empty
+pub proof fn lemma_ck_fold_nonempty(ps: Seq<Seq<char>>)
+    requires ps.len() > 0, ck_fold(ps) is Some
+    ensures exists|k: Seq<char>| (#[trigger] ck_fold(ps)->Some_0.contains_key(k))
+{
+    let p = ps.last();
+    let i = last_index_of(p, ':');
+    let m = ck_fold(ps.drop_last())->Some_0;
+    let k = lower_seq(p.subrange(0, i));
+    assert(ck_fold(ps)->Some_0 == m.insert(k, p.subrange(i + 1, p.len() as int)));
+    assert(ck_fold(ps)->Some_0.contains_key(k));
+}
+pub proof fn lemma_split_nonempty(s: Seq<char>, c: char)
+    ensures split_spec(s, c).len() > 0
     decreases s.len()
 {
-    if s.len() > 0 { lemma_pypi_no_dash(s.drop_last()); }
+    if !(first_index_of(s, c) < 0 || first_index_of(s, c) >= s.len()) { }
+}
+pub proof fn lemma_listing_text_nonempty(es: VS)
+    requires es.len() > 0
+    ensures listing_text(es).len() > 0
+    decreases es.len()
+{
+    if es.len() == 1 { assert(entry_text(es[0].0, es[0].1).len() >= 1); }
+    else { assert(listing_text(es).len() >= 1); }
+}
+pub proof fn lemma_ck_parse_nonempty(text: Seq<char>)
+    requires ck_parse(text) is Some
+    ensures exists|k: Seq<char>| (#[trigger] ck_parse(text)->Some_0.contains_key(k))
+{
+    lemma_split_nonempty(text, ',');
+    lemma_ck_fold_nonempty(split_spec(text, ','));
+}
+pub proof fn lemma_listing_covers(es: VS, m: Map<Seq<char>, Seq<char>>, k: Seq<char>)
+    requires is_listing(es, m), m.contains_key(k)
+    ensures es.len() > 0
+{
+    reveal(is_listing);
+    let i = choose|i: int| 0 <= i < es.len() && #[trigger] es[i].0 == k;
 }
 
-pub open spec fn type_name(t: PackageType) -> Seq<char> {
-    match t {
-        PackageType::Cargo => seq!['c', 'a', 'r', 'g', 'o'],
-        PackageType::Gem => seq!['g', 'e', 'm'],
-        PackageType::Golang => seq!['g', 'o', 'l', 'a', 'n', 'g'],
-        PackageType::Maven => seq!['m', 'a', 'v', 'e', 'n'],
-        PackageType::Npm => seq!['n', 'p', 'm'],
-        PackageType::NuGet => seq!['n', 'u', 'g', 'e', 't'],
-        PackageType::PyPI => seq!['p', 'y', 'p', 'i'],
-    }
+// ---- unit T.Checksum  <= purl/src/qualifiers/well_known.rs:99 ----
+pub struct Checksum<'a> {
+    pub algorithms: HashMap<SmallString, Cow<'a, str>>,
 }
-
-/// What PackageType::finish may do (C08): the per-type name rule, the maven namespace rule, nothing else touched.
-pub open spec fn pkg_finish_rel(t0: PackageType, p0: PurlParts, t1: PackageType, p1: PurlParts, r: Result<(), PackageError>) -> bool {
-    t1 == t0
-    && p1.namespace == p0.namespace && p1.version == p0.version && p1.qualifiers == p0.qualifiers && p1.subpath == p0.subpath
-    && match t0 {
-        PackageType::Maven =>
-            if all_char(p0.namespace@, '/') { r == Err::<(), PackageError>(PackageError::MissingRequiredField(PurlField::Namespace)) }
-            else { r is Ok && p1.name == p0.name },
-        PackageType::NuGet => r is Ok && p1.name@ == lower_seq(p0.name@),
-        PackageType::PyPI => r is Ok && p1.name@ == pypi_norm(p0.name@),
-        _ => r is Ok && p1.name == p0.name,
-    }
-}
-
-/// `Cow::from(&'static str)` (std: `Cow::Borrowed(s)`), for the stub Cow
-pub fn x_cow_from_str<'a>(s: &'a str) -> (r: Cow<'a, str>)
-    ensures r@ == s@
-{ Cow::Borrowed(s) }
-
-// R9: what thiserror's `#[from]` on `PackageError::Parse` generates (derive semantics, assumed)
-impl vstd::std_specs::convert::FromSpecImpl<ParseError> for PackageError {
-    open spec fn obeys_from_spec() -> bool { true }
-    open spec fn from_spec(e: ParseError) -> Self { PackageError::Parse(e) }
-}
-impl From<ParseError> for PackageError {
-    fn from(e: ParseError) -> (r: Self)
-    { PackageError::Parse(e) }
-}
-
-// ---- unit T.GenericPurlBuilder  <= purl/src/builder.rs:25 ----
-pub struct GenericPurlBuilder<T> {
-    pub package_type: T,
-    pub parts: PurlParts,
-}
-// ---- unit T.GenericPurl  <= purl/src/lib.rs:251 ----
-pub struct GenericPurl<T> {
-    pub package_type: T,
-    pub parts: PurlParts,
-}
-// ---- unit stub.builder  <= (contracts):0 ----
-
-// R9: derive(Default) on PurlParts / Qualifiers (derive semantics, assumed): all fields empty
-impl Default for PurlParts {
-    fn default() -> (r: Self)
-        ensures r.namespace@.len() == 0, r.name@.len() == 0, r.version@.len() == 0, r.subpath@.len() == 0, r.qualifiers.qualifiers@.len() == 0
-    { PurlParts { namespace: String::new(), name: String::new(), version: String::new(),
-                  qualifiers: Qualifiers { qualifiers: Vec::new() }, subpath: String::new() } }
-}
-
-// ---- unit alias  <= (contracts):0 ----
-pub type Purl = GenericPurl<PackageType>;
-pub type PurlBuilder = GenericPurlBuilder<PackageType>;
-impl<T> GenericPurlBuilder<T> {
-// ---- unit U-set.new  <= purl/src/builder.rs:34 ----
+// ---- unit U-lower.copy_as_lowercase  <= purl/src/lib.rs:421 ----
 #[verifier::external_body]
-pub fn new<S>(package_type: T, name: S) -> (r: Self)
-where SmallString: From<S>,
-        ensures r.package_type == package_type,
-            r.parts.namespace@.len() == 0, r.parts.version@.len() == 0, r.parts.subpath@.len() == 0,
-            r.parts.qualifiers.qualifiers@.len() == 0,
-            <SmallString as vstd::std_specs::convert::FromSpec<S>>::obeys_from_spec() ==> r.parts.name == <SmallString as vstd::std_specs::convert::FromSpec<S>>::from_spec(name)
+pub fn copy_as_lowercase(s: &str) -> (r: SmallString)
+    ensures r@ == lower_seq(s@)
 { unimplemented!() }
-// ---- unit U-set.with_namespace  <= purl/src/builder.rs:53 ----
-#[verifier::external_body]
-pub fn with_namespace<S>(self, new: S) -> (r: Self)
-where SmallString: From<S>,
-        ensures r.package_type == self.package_type, r.parts.name == self.parts.name, r.parts.version == self.parts.version, r.parts.qualifiers == self.parts.qualifiers, r.parts.subpath == self.parts.subpath,
-            <SmallString as vstd::std_specs::convert::FromSpec<S>>::obeys_from_spec() ==> r.parts.namespace == <SmallString as vstd::std_specs::convert::FromSpec<S>>::from_spec(new)
-{ unimplemented!() }
-}
-impl<T> GenericPurl<T> {
-// ---- unit U-acc.package_type  <= purl/src/lib.rs:283 ----
-pub fn package_type(&self) -> (r: &T)
-        ensures *r == self.package_type
-{
-        &self.package_type
-    }
-// ---- unit U-acc.namespace  <= purl/src/lib.rs:289 ----
-pub fn namespace(&self) -> (r: Option<&str>)
-        ensures self.parts.namespace@.len() == 0 ==> r is None,
-            self.parts.namespace@.len() > 0 ==> r is Some && r->Some_0@ == self.parts.namespace@
-{
-        x_some_nonempty(&*self.parts.namespace)
-    }
-// ---- unit U-acc.name  <= purl/src/lib.rs:295 ----
-pub fn name(&self) -> (r: &str)
-        ensures r@ == self.parts.name@
-{
-        &self.parts.name
-    }
-// ---- unit U-acc.version  <= purl/src/lib.rs:301 ----
-pub fn version(&self) -> (r: Option<&str>)
-        ensures self.parts.version@.len() == 0 ==> r is None,
-            self.parts.version@.len() > 0 ==> r is Some && r->Some_0@ == self.parts.version@
-{
-        x_some_nonempty(&*self.parts.version)
-    }
-// ---- unit U-acc.qualifiers  <= purl/src/lib.rs:307 ----
-pub fn qualifiers(&self) -> (r: &Qualifiers)
-        ensures *r == self.parts.qualifiers
-{
-        &self.parts.qualifiers
-    }
-// ---- unit U-acc.subpath  <= purl/src/lib.rs:313 ----
-pub fn subpath(&self) -> (r: Option<&str>)
-        ensures self.parts.subpath@.len() == 0 ==> r is None,
-            self.parts.subpath@.len() > 0 ==> r is Some && r->Some_0@ == self.parts.subpath@
-{
-        x_some_nonempty(&*self.parts.subpath)
-    }
-// ---- unit U-acc.into_builder  <= purl/src/lib.rs:318 ----
-pub fn into_builder(self) -> (r: GenericPurlBuilder<T>)
-        ensures r.package_type == self.package_type, r.parts == self.parts
-{
-        let GenericPurl { package_type, parts } = self;
-        GenericPurlBuilder { package_type, parts }
-    }
-}
-// ---- unit spec.comb  <= (contracts):0 ----
+// ---- unit spec.Checksum  <= (contracts):0 ----
 
-/// C18: where a combined name is split, per ecosystem
-pub open spec fn comb_split(t: PackageType, s: Seq<char>) -> (Seq<char>, Seq<char>) {
-    match t {
-        PackageType::Golang | PackageType::Npm =>
-            if last_index_of(s, '/') >= 0 { (s.subrange(0, last_index_of(s, '/')), s.subrange(last_index_of(s, '/') + 1, s.len() as int)) }
-            else { (Seq::<char>::empty(), s) },
-        PackageType::Maven =>
-            if first_index_of(s, ':') >= 0 { (s.subrange(0, first_index_of(s, ':')), s.subrange(first_index_of(s, ':') + 1, s.len() as int)) }
-            else { (Seq::<char>::empty(), s) },
-        _ => (Seq::<char>::empty(), s),
-    }
-}
-pub open spec fn comb_join(t: PackageType, ns: Seq<char>, name: Seq<char>) -> Seq<char> {
-    match t {
-        PackageType::Golang | PackageType::Npm => if ns.len() > 0 { ns + seq!['/'] + name } else { name },
-        PackageType::Maven => if ns.len() > 0 { ns + seq![':'] + name } else { name },
-        _ => name,
-    }
-}
-/// C18 round trip: under the stated side condition splitting the joined name gives namespace and name back
-pub proof fn lemma_c18_roundtrip(t: PackageType, ns: Seq<char>, name: Seq<char>)
-    requires match t {
-        PackageType::Golang | PackageType::Npm => !has_char(name, '/'),
-        // a maven PURL always has a namespace (C08: maven is refused unless a namespace is present)
-        PackageType::Maven => !has_char(ns, ':') && ns.len() > 0,
-        _ => ns.len() == 0,
-    }
-    ensures comb_split(t, comb_join(t, ns, name)) == (ns, name)
-{
-    let s = comb_join(t, ns, name);
-    match t {
-        PackageType::Golang | PackageType::Npm => {
-            if ns.len() > 0 {
-                lemma_rsplit_join(ns, name, '/');
-                assert(s.subrange(0, ns.len() as int) =~= ns);
-                assert(s.subrange(ns.len() as int + 1, s.len() as int) =~= name);
-            } else { lemma_last_index(name, '/'); }
-        },
-        PackageType::Maven => {
-            lemma_split_join(ns, name, ':');
-            assert(s.subrange(0, ns.len() as int) =~= ns);
-            assert(s.subrange(ns.len() as int + 1, s.len() as int) =~= name);
-        },
-        _ => { assert(ns =~= Seq::<char>::empty()); },
-    }
+impl<'a> Checksum<'a> {
+    /// the entries: lower-cased algorithm -> hex text as written
+    pub open spec fn entries(&self) -> Map<Seq<char>, Seq<char>> { hm_view(self.algorithms) }
 }
 
-impl GenericPurl<PackageType> {
-// ---- unit U-comb.builder_with_combined_name  <= purl/src/lib.rs:327 ----
-pub fn builder_with_combined_name<S>( package_type: PackageType, namespaced_name: S, ) -> (r: PurlBuilder)
-where S: AsRef<str>,
-        ensures r.package_type == package_type,
-            r.parts.namespace@ == comb_split(package_type, namespaced_name.text()).0,
-            r.parts.name@ == comb_split(package_type, namespaced_name.text()).1,
-            r.parts.version@.len() == 0, r.parts.subpath@.len() == 0, r.parts.qualifiers.qualifiers@.len() == 0
+// ---- unit U-cktext.checksum_to_text  <= purl/src/qualifiers/well_known.rs:133 ----
+pub fn checksum_to_text<'a>(value: Checksum<'a>) -> (r: Result<SmallString, ParseError>)
+    ensures match r {
+        // refused exactly when some entry is not an even number of hex digits
+        Err(e) => e == ParseError::InvalidQualifier && !all_values_hex(value.entries()),
+        // otherwise: the entries in strictly ascending algorithm order, lower-case hex -- one text, for EVERY order in which the map yields them
+        Ok(t) => all_values_hex(value.entries()) && t@ == canon_text(value.entries())
+            // the text of a non-empty entry set is non-empty
+            && ((exists|k: Seq<char>| #[trigger] value.entries().contains_key(k)) ==> t@.len() > 0),
+    }
 {
-        proof { axiom_string_from(); } broadcast use axiom_view_of_str;
+    proof { axiom_string_from(); }
+    let ghost m = value.entries();
 
-        let namespaced_name = namespaced_name.as_ref();
-        let (namespace, name) = match package_type {
-            PackageType::Cargo | PackageType::Gem | PackageType::NuGet | PackageType::PyPI => {
-                (None, namespaced_name)
-            },
-            PackageType::Golang | PackageType::Npm => match x_rsplit_once(namespaced_name, '/') {
-                Some((namespace, name)) => (Some(namespace), name),
-                None => (None, namespaced_name),
-            },
-            PackageType::Maven => match x_split_once(namespaced_name, ':') {
-                Some((namespace, name)) => (Some(namespace), name),
-                None => (None, namespaced_name),
-            },
-        };
-        let mut builder = GenericPurlBuilder::new(package_type, name);
-        if let Some(namespace) = namespace {
-            builder = builder.with_namespace(namespace);
+        let mut algorithms: Vec<_> = x_hm_into_vec(value.algorithms);
+    let ghost before = algorithms@;
+
+        x_sort_by_key0(&mut algorithms);
+    proof {
+        lemma_sorted_listing(ev(before), ev(algorithms@), m);
+    }
+
+        let mut v = String::with_capacity(
+            (x_sum_entry_lens(&algorithms)
+                + algorithms.len())
+            .saturating_sub(1),
+        );
+        let ghost xs = algorithms@;
+    let ghost es = ev(xs);
+    for (algorithm, bytes) in it: algorithms 
+
+        invariant
+            it.seq() == xs, es == ev(xs), m == value.entries(), is_listing(es, m), sorted_by_key(es),
+            v@ == listing_text(es.take(it.index@ as int)),
+            forall|i: int| 0 <= i < it.index@ ==> hex_ok(#[trigger] es[i].1),
+{
+            if ({ let mut any_hit0 = false; for b in it: bytes.chars() 
+
+        invariant_except_break !any_hit0,
+            forall|i: int| 0 <= i < it.index@ ==> ascii_hex_c(#[trigger] bytes@[i]),
+        invariant it.seq() == bytes@,
+        ensures
+            any_hit0 ==> exists|i: int| 0 <= i < bytes@.len() && !ascii_hex_c(#[trigger] bytes@[i]),
+            !any_hit0 ==> forall|i: int| 0 <= i < bytes@.len() ==> ascii_hex_c(#[trigger] bytes@[i]),
+{ if !b.is_ascii_hexdigit() { any_hit0 = true; break; } } any_hit0 }) || x_str_len(&bytes) % 2 != 0 {
+                
+                proof {
+                    if forall|i: int| 0 <= i < bytes@.len() ==> ascii_hex_c(#[trigger] bytes@[i]) { lemma_hex_is_ascii(bytes@); }
+                    assert(bytes@ == es[it.index@ as int].1 && algorithm@ == es[it.index@ as int].0);
+                    lemma_bad_entry(es, m, it.index@ as int);
+                }
+return Err(ParseError::InvalidQualifier);
+            }
+            
+            proof {
+                lemma_hex_is_ascii(bytes@);
+                assert(bytes@ == es[it.index@ as int].1 && algorithm@ == es[it.index@ as int].0);
+                lemma_listing_text_step(es, it.index@ as int);
+                lemma_listing_text_nonempty_iff(es.take(it.index@ as int));
+                if it.index@ > 0 { lemma_listing_text_step(es, it.index@ - 1); }
+            }
+if !v.is_empty() {
+                v.push(',');
+            }
+            v.push_str(&algorithm);
+            v.push(':');
+            x_extend_ascii_lower(&mut v, &bytes);
         }
-        builder
+        
+    proof { lemma_all_ok(es, m); assert(es.take(es.len() as int) == es); lemma_canon_listing(es, m);
+        if exists|k: Seq<char>| #[trigger] m.contains_key(k) {
+            let k = choose|k: Seq<char>| #[trigger] m.contains_key(k);
+            lemma_listing_covers(es, m, k); lemma_listing_text_nonempty(es);
+        } }
+Ok(SmallString::from(v))
     }
-// ---- unit U-comb.combined_name  <= purl/src/lib.rs:360 ----
-pub fn combined_name(&self) -> (r: Cow<'_, str>)
-        ensures r@ == comb_join(self.package_type, self.parts.namespace@, self.parts.name@)
+// ---- unit U-ckparse.checksum_from_text  <= purl/src/qualifiers/well_known.rs:110 ----
+#[verifier::loop_isolation(false)]
+pub fn checksum_from_text<'a>(value: &'a str) -> (r: Result<Checksum<'a>, ParseError>)
+    ensures match r {
+        Ok(c) => ck_parse(value@) == Some(c.entries()),
+        Err(e) => e == ParseError::InvalidQualifier && ck_parse(value@) is None,
+    }
 {
-        match self.package_type {
-            PackageType::Cargo | PackageType::Gem | PackageType::NuGet | PackageType::PyPI => {
-                x_cow_from_str(self.name())
-            },
-            PackageType::Golang | PackageType::Npm => match self.namespace() {
-                Some(namespace) => Cow::Owned(x_concat3(namespace, '/', self.name())),
-                None => x_cow_from_str(self.name()),
-            },
-            PackageType::Maven => match self.namespace() {
-                Some(namespace) => Cow::Owned(x_concat3(namespace, ':', self.name())),
-                None => x_cow_from_str(self.name()),
-            },
+        let mut algorithms =
+            x_hm_with_capacity(x_count_char(value, ',') + 1);
+        let pieces = x_split(value, ',');
+    let ghost ps = split_spec(value@, ',');
+    for hash in it: pieces 
+
+        invariant
+            it.seq() == pieces@, pieces@.len() == ps.len(),
+            forall|i: int| 0 <= i < pieces@.len() ==> (#[trigger] pieces@[i])@ == ps[i],
+            ck_fold(ps.take(it.index@ as int)) == Some(hm_view(algorithms)),
+{
+            
+        proof {
+            assert(hash@ == ps[it.index@ as int]);
+            assert(ps.take(it.index@ + 1).drop_last() == ps.take(it.index@ as int));
+            assert(ps.take(it.index@ + 1).last() == hash@);
+            if ck_fold(ps.take(it.index@ + 1)) is None { lemma_ck_fold_none(ps, it.index@ + 1); }
         }
+let Some((algorithm, bytes)) = x_rsplit_once(hash, ':') else {
+                return Err(ParseError::InvalidQualifier);
+            };
+            let algorithm = copy_as_lowercase(algorithm);
+            if x_hm_insert(&mut algorithms, algorithm, Cow::Borrowed(bytes)).is_some() {
+                return Err(ParseError::InvalidQualifier);
+            }
+        }
+        
+    proof { assert(ps.take(ps.len() as int) == ps); }
+Ok(Checksum { algorithms })
     }
-}
 
 // ---- consistency canary: must be REJECTED; if it verifies the assumptions are contradictory ----
 pub proof fn verif_canary_must_fail()
 {
-    axiom_string_from(); broadcast use axiom_ascii_to_lower; broadcast use axiom_view_of_str;
+    axiom_string_from(); broadcast use axiom_ascii_to_lower; axiom_utf8_len_ascii(seq!['a']);
     assert(false);
 }
 } // verus!
